@@ -47,6 +47,15 @@ def run(run, binfo):
             g = variants(rng, base)
             groups.append((len(cases), len(g)))
             cases += g
+        # an empty rule table, and a target whose keys the debug dump would mask
+        for rl, tg, rule in [({}, {}, ('name', 'anything')),
+                             ({'m': "'tv':%(auth_token)s and 'pw':%(password)s"},
+                              {'auth_token': 'tv', 'password': 'pw', 'secret': {'k': 'v'}}, ('name', 'm')),
+                             ({'m': "'tv':%(auth_token)s"}, {'auth_token': 'tv'}, ('obj', "'tv':%(auth_token)s", None))]:
+            base = base_case(rules=rl, default=('none',), rule=rule, creds={'roles': [], 'token': 'x'}, target=tg)
+            g = variants(rng, base)
+            groups.append((len(cases), len(g)))
+            cases += g
         # credential type gate
         cases.append(base_case(rules=rules, rule=('name', names[0]), creds=NOT_MAPPING))
         groups.append((len(cases) - 1, 1))
